@@ -74,11 +74,21 @@ class Cfg:
                 ops.append(("r", 4, a, 0))
                 ops.append(("w", 4, a, 0))
                 ops.append(("u", 4, a, 0))
+        if variant == "mixed":
+            # the same 32-bit address written in different ways inside ONE history (negative, >= 2^32): every word of the
+            # first tag also gets a read spelled a - 2^32 and a write spelled a + 2^32
+            extra = []
+            first = [a for a in self.words if a < base + way]
+            for a in first:
+                extra += [("r", 4, a, 0, -1), ("w", 4, a, 0, 1), ("r", 1, a + 2, 0, 1)]
+            ops = ops + extra
         self.ops = ops
         self.blk = blk
 
-    def spell(self, a):
+    def spell(self, a, alias=0):
         """How the address is written in the call (aliases of the same 32-bit address)."""
+        if alias:
+            return a + alias * (1 << 32)
         if self.variant == "neg":
             return a - (1 << 32)
         if self.variant == "big":
@@ -123,7 +133,7 @@ class World:
                 self.flat[a] = v
 
     def wval(self, op):
-        kind, width, a, vi = op
+        kind, width, a, vi = op[:4]
         if self.cfg.const:
             v = 0
             for i in range(width):
@@ -133,7 +143,8 @@ class World:
 
     def apply(self, op, checks=None):
         """Apply one operation to the real object and the reference. With checks (a list), append (field, detail)."""
-        kind, width, a, vi = op
+        kind, width, a, vi = op[:4]
+        alias = op[4] if len(op) > 4 else 0
         mem = self.mem
         crossing = (a & 3) + width > 4
         st0 = mem.get_cache_stats() if checks is not None else None
@@ -143,12 +154,12 @@ class World:
         try:
             if kind in ("r", "u"):
                 fn = (mem.read_byte, mem.read_halfword, None, mem.read_word)[width - 1]
-                val = int(fn(self.cfg.spell(a), kind == "r"))
+                val = int(fn(self.cfg.spell(a, alias), kind == "r"))
             else:
                 v = self.wval(op)
                 ty = (rv.U8, rv.U16, None, rv.U32)[width - 1]
                 fn = (mem.write_byte, mem.write_halfword, None, mem.write_word)[width - 1]
-                fn(self.cfg.spell(a), ty(v))
+                fn(self.cfg.spell(a, alias), ty(v))
         except Exception as e:  # noqa
             raised = e
         if crossing:
@@ -208,9 +219,14 @@ class World:
             status.append(st.replacement_status)
             for wi, b in enumerate(st.blocks):
                 if b.valid_bit == "1":
-                    base = int(b.address_value_list[0][0], 16)
-                    vals = [int(v) & M for _a, v in b.address_value_list]
-                    blocks.append((si, wi, int(b.tag, 16), base, vals, b.dirty_bit))
+                    try:
+                        base = int(b.address_value_list[0][0], 16)
+                        vals = [int(v) & M for _a, v in b.address_value_list]
+                        tag = int(b.tag, 16)
+                    except (ValueError, TypeError, IndexError):
+                        # a representation that is not a hexadecimal tag / address cannot equal the reference's
+                        base, vals, tag = -1, [], ("unparseable", str(b.tag))
+                    blocks.append((si, wi, tag, base, vals, b.dirty_bit))
         return blocks, status
 
     def backing_words(self):
@@ -316,11 +332,13 @@ def _dropzero(c):
 
 
 def opname(op):
-    kind, width, a, vi = op
+    kind, width, a, vi = op[:4]
+    alias = op[4] if len(op) > 4 else 0
     w = {1: "byte", 2: "halfword", 4: "word"}[width]
+    at = f"{a:#x}" + ("" if not alias else (" - 2^32" if alias < 0 else " + 2^32"))
     if kind == "w":
-        return f"write_{w}({a:#x}, v{vi})"
-    return f"read_{w}({a:#x}{'' if kind == 'r' else ', uncounted'})"
+        return f"write_{w}({at}, v{vi})"
+    return f"read_{w}({at}{'' if kind == 'r' else ', uncounted'})"
 
 
 def hist_text(cfg, hist):
